@@ -630,6 +630,7 @@ def check_C20(rep, tier):
     for rj in rejected:
         rep.mismatch({"kind": "trace_rejected"}, {"trace": rj["lines"], "at": rj["at"]})
     os.remove(trace)
+    _extreme_lengths(rep, "C20")
     res = json.loads(run_itv(["record", "C20bin", str(10000 if tier == "quick" else 300000)]))
     rep.cov["evaluations"] += res["n"]
     rep.cov["binary_round_trips"] = res["n"]
@@ -637,6 +638,39 @@ def check_C20(rep, tier):
         rep.mismatch({"kind": "binary_round_trip"}, {"case": b})
     rep.assumptions += ["byte strings are modelled over a small framing alphabet; binary payloads are sampled, not enumerated",
                         "for strings that are not Pack images C20 only demands totality; disagreement with the parser machine is drift"]
+
+
+def _extreme_lengths(rep, prop):
+    """Envelope encodings whose length fields hold extreme numbers, decoded in a process of their own: a panic
+    is reported by the harness, the death of the process (allocation failure, stack overflow) is seen here."""
+    def run(k):
+        try:
+            return last_json(run_itv(["record", "C20ext", str(k)], timeout=300)), None
+        except ToolError as e:
+            return None, str(e)
+    res, died = run(0)
+    if res is not None:
+        rep.cov["extreme_length_inputs"] = res["inputs"]
+        rep.cov["evaluations"] += 2 * res["inputs"]
+        for b in res["bad"]:
+            rep.mismatch({"kind": "panic", "entry": "pae_decode_extreme_length"}, {"case": b})
+        return
+    # the process died: find the inputs that kill it, one process each
+    k = 1
+    found = 0
+    while k <= 400:
+        r, d = run(k)
+        if r is not None:
+            if k > r["inputs"]:
+                break
+            for b in r["bad"]:
+                rep.mismatch({"kind": "panic", "entry": "pae_decode_extreme_length"}, {"case": b})
+        else:
+            found += 1
+            rep.mismatch({"kind": "process_died", "entry": "pae_decode_extreme_length"}, {"input_index": k - 1, "stderr": d[-300:]})
+        k += 1
+    if not found:
+        raise ToolError("extreme-length decoding died as a batch but not one by one: " + (died or "")[-300:])
 
 
 # ----------------------------------------------------------------------------- C11
@@ -1187,6 +1221,7 @@ def check_C14(rep, tier):
     rep.cov["parts"]["trace"] = {"runs": total, "rejected": len(rejected), "states": tst.distinct}
     os.remove(trace)
     sh.cleanup()
+    _extreme_lengths(rep, "C14")
     res = last_json(run_itv(["record", "C14mut", "20000" if tier == "quick" else "2000000"], timeout=6000))
     rep.cov["byte_mutations"] = res["n"]
     rep.cov["mutation_outcomes"] = {k: res[k] for k in ("value", "error", "panic")}
